@@ -319,6 +319,13 @@ def r26(facts, res):
         holds, adapters, consumers = c15.flow(b, t['dest']['l'])
         ok, why = False, ''
         nexts = [(cb, ct) for cb, ct, ai in consumers if cname(ct) == 'next']
+        if not nexts:
+            # handed to `zip` as the second iterator: the pair iterator carries it on
+            for cb, ct, ai in consumers:
+                if cname(ct) == 'zip' and ai == 1:
+                    _h2, ad2, cons2 = c15.flow(b, ct['dest']['l'])
+                    adapters = adapters + ['zip'] + ad2
+                    nexts = [(cb2, ct2) for cb2, ct2, _ in cons2 if cname(ct2) == 'next']
         if nexts:
             cb = nexts[0][0]
             inl = [h for h in loops if cb in loops[h]]
@@ -560,7 +567,112 @@ def r25(facts, res):
         res.ok(R, 'edges-overwrite', loc_of(b, sites[0][0]), 'all %d edge-recording sites overwrite a previous edge on the same symbol' % len(sites))
 
 
+INT_TYS = ('usize', 'u8', 'u16', 'u32', 'u64', 'u128', 'isize', 'i8', 'i16', 'i32', 'i64', 'i128')
+
+
+def loop_carried_scalars(b, blks):
+    """integer locals with a definition inside the loop and one outside it: running counts"""
+    out = set()
+    for l, ds in b.defs().items():
+        if b.lty(l) in INT_TYS and any(d[0] in blks for d in ds) and any(d[0] not in blks for d in ds):
+            out.add(l)
+    return out
+
+
+def r29(facts, res):
+    """gc() renumbers the states it keeps; an edge can point at ANY state, earlier or later than its source.  The new
+    number written into an edge must therefore be a function of the edge's target alone (a lookup in a table completed
+    beforehand, a count over the reachable set, ...): a running count kept by the loop that walks the SOURCE states is the
+    number of states dropped before the source, not before the target (seeded change C04-gc-fused-offset)."""
+    R = 'R2.9'
+    bs = [x for x in facts.lib_bodies(['lrtable']) if strip_generics(x.path) == 'lrtable::pager::gc']
+    if len(bs) != 1:
+        return res.lost(R, 'lrtable::pager::gc not found')
+    b = bs[0]
+    loops = b.loops()
+    T = 'lrtable::StIdx<usize>'
+    n = 0
+    # (a) closure form: |(&k, &v)| (k, f(v))
+    for bb in sorted(b.reachable()):
+        for st in b.blocks[bb]['stmts']:
+            if st['k'] != 'assign' or not (isinstance(st['rv'].get('agg'), dict) and 'closure' in st['rv']['agg']):
+                continue
+            cb = facts.bodies.get(st['rv']['agg']['closure'])
+            if cb is None or T not in cb.lty(0) or not any(T in cb.lty(a) for a in range(2, cb.arg_count + 1)):
+                continue
+            n += 1
+            inl = [h for h in loops if bb in loops[h]]
+            carried = set()
+            for h in inl:
+                carried |= loop_carried_scalars(b, loops[h])
+            caps = []
+            for o in st['rv']['ops']:
+                r, _p, _v = b.op_root(o, through=())
+                if r in carried:
+                    caps.append(b.name_of(r) or '_%d' % r)
+            key = 'edge-target:closure@L%d' % (n - 1)
+            if caps:
+                res.bad(R, key, loc_of(b, bb), 'the new number of an edge target is computed from the running count `%s` of the loop over the '
+                        'source states: it is right only when no dropped state lies between source and target' % ', '.join(sorted(caps)))
+            else:
+                res.ok(R, key, loc_of(b, bb), 'the new number of an edge target depends on the target and on data completed before this loop')
+    # (b) loop form: new_edges.insert(k, f(v))
+    for bb, t in b.calls_named('insert'):
+        c = callee_of(t)
+        if 'HashMap' not in (c.get('self_ty') or cpath(t) or '') or len(t['args']) < 3:
+            continue
+        vl = op_local(t['args'][2])
+        if vl is None or T not in b.lty(vl):
+            continue
+        inl = [h for h in loops if bb in loops[h]]
+        if not inl:
+            continue
+        n += 1
+        outer = max(inl, key=lambda h: len(loops[h]))
+        carried = loop_carried_scalars(b, loops[outer])
+        # backward slice of the inserted value inside the loop
+        seen, todo = set(), [vl]
+        while todo:
+            l = todo.pop()
+            if l in seen:
+                continue
+            seen.add(l)
+            for d in b.defs().get(l, []):
+                if d[0] not in loops[outer]:
+                    continue
+                ops = rv_operands(d[2]) if d[1] == 'stmt' else d[2]['args']
+                if d[1] == 'stmt':
+                    for k in ('ref', 'rawptr', 'discr', 'len'):
+                        if k in d[2]:
+                            todo.append(d[2][k]['l'])
+                for o in ops:
+                    pl = op_place(o)
+                    if pl is not None:
+                        todo.append(pl['l'])
+                        for pr in pl['p']:
+                            if isinstance(pr, dict) and 'index' in pr:
+                                todo.append(pr['index'])
+        # the loop's own position (an Enumerate index) is not a running count; a count is
+        caps = sorted(b.name_of(l) or '_%d' % l for l in seen & carried if not _is_induction(b, l, loops[outer]))
+        key = 'edge-target:insert@L%d' % (n - 1)
+        if caps:
+            res.bad(R, key, loc_of(b, bb), 'the new number of an edge target is computed from the running count `%s` of the loop over the '
+                    'source states: it is right only when no dropped state lies between source and target' % ', '.join(caps))
+        else:
+            res.ok(R, key, loc_of(b, bb), 'the new number of an edge target depends on the target and on data completed before this loop')
+    res.floor(R, 'sites that renumber an edge target', n, 1)
+
+
+def _is_induction(b, l, blks):
+    """assigned exactly once in the loop, on every iteration (its block dominates the back edges)"""
+    ds = [d for d in b.defs().get(l, []) if d[0] in blks]
+    if len(ds) != 1:
+        return False
+    return all(b.dominates(ds[0][0], u) for (u, h) in b.back_edges() if u in blks and h in blks)
+
+
 def run(facts, res):
+    r29(facts, res)
     r25(facts, res)
     r21(facts, res)
     r22(facts, res)
